@@ -106,6 +106,8 @@ def impl(case):
 
 
 def model(case):
+    if RC.has_kind(case["tree"], "filtsrc"):
+        return None  # a predicate on the outcome's origin is outside the model's vocabulary: the plain denotation decides
     toks = RC.tokens(case["tree"])
     return [" ".join(["ROLLVALS"] + toks), " ".join(["DENVALS"] + toks)]
 
@@ -167,6 +169,8 @@ def shrink(case):
             yield t[3]
         elif t[0] == "substmap":
             yield t[6]
+        elif t[0] == "filtsrc":
+            yield from t[2]
         elif t[0] == "unb":
             yield t[4]
         elif t[0] == "unc":
